@@ -787,6 +787,10 @@ func (tic *TermInCommittee) HandleNewView(nvm *interfaces.NewViewMessage) {
 				tic.logger.Info("LHMSG RECEIVED NEW_VIEW IGNORE - NewView.ViewChangeConfirmation (with latest view) is invalid")
 				return
 			}
+			if !ppMessageContent.SignedHeader().BlockHash().Equal(latestVoteBlockHash) {
+				tic.logger.Info("LHMSG RECEIVED NEW_VIEW IGNORE - NewView.Preprepare block hash does not match the block hash of the latest prepared proof")
+				return
+			}
 		}
 	}
 
